@@ -2,8 +2,8 @@
 CONSTANTS
   StrMax = 7
   KAll = 3
-  KSem = 3
-  SemDims = {"second", "tkeys", "iaddr", "itype", "iamt", "trs", "conv"}
+  KSem = 4
+  SemDims = {"tkeys", "iamt", "trs", "conv", "itype"}
   BigMenu = TRUE
 INIT Init
 NEXT Next
